@@ -95,7 +95,7 @@ extern size_t vf_file_len;
 extern size_t vf_file_cap;
 extern _Bool vf_file_openable;
 /* fault injection for writes/close: the harness leaves these unconstrained          */
-_Bool vf_nondet_fault(void);
+_Bool nondet_vf_fault(void);
 
 void vf_stream_ctor(vf_stream *f);                                     /* fstream() */
 void vf_stream_ctor_open(vf_stream *f, const vf_string *path, int mode); /* fstream(path, mode) */
